@@ -43,6 +43,8 @@ def answers(r, peer, k, ctx):
     out.append(("wrong_authentication_key", plain_apdu(15, data=cc.octet(other.hls_proof(client_challenge=ch))), False))
     other = cc.Peer(True, suite=peer.suite, ic=peer.ic, ek=peer.ek, ak=peer.ak, title=b"OTHER001")
     out.append(("wrong_title", plain_apdu(15, data=cc.octet(other.hls_proof(client_challenge=ch))), False))
+    # the same, but the whole answer (ciphering wrapper and proof) comes from a station with another title that knows the keys
+    out.append(("wrong_title_everywhere", ("raw", other.ggc(plain_apdu(15, data=cc.octet(other.hls_proof(client_challenge=ch))), ic=other.ic)), False))
     out.append(("wrong_challenge", plain_apdu(15, data=cc.octet(peer.hls_proof(client_challenge=bytes(len(ch))))), False))
     out.append(("meter_challenge_instead", plain_apdu(15, data=cc.octet(peer.hls_proof(client_challenge=cc.CHALLENGE_M))), False))
     g = bytearray(good)
@@ -101,6 +103,11 @@ def run(ctx):
         mtitle = base[-1][1][3]
         answer_ic = peer.ic                    # every script is a fresh connection: the meter's answer always carries this counter
         for label, plain, ready in answers(r, peer, k, ctx):
+            if isinstance(plain, tuple):                 # an answer that is already ciphered (by another station)
+                ans, plain = plain[1], None
+                scripts.append([k, c, head + [[1, ans], [0, cc.get_v()]]])
+                meta.append((label, b"\x00", ready, k, mtitle, base))
+                continue
             ans = peer.ggc(plain, ic=answer_ic)
             s = [k, c, head + [[1, ans], [0, cc.get_v()]]]
             scripts.append(s)
